@@ -16,6 +16,7 @@ Operations (plain lists):
                          re-entrantly: the consumer-loop idiom) | "rput" (its callback
                          puts the next integer re-entrantly)
   ["cancel", j]          cancel the Deferred of get j (pending, or already fired = no-op)
+  ["pcancel", j]         the same while the owner has paused that Deferred: pause(); cancel(); unpause()
   ["cancel*", cls, k]    selector form for the random generator: k-th (mod n) get of
                          class cls in pending|any
 Gets are numbered in creation order (a get refused with QueueUnderflow creates none).
